@@ -84,7 +84,9 @@ type genState struct {
 	batchNo  int
 	deadKids map[string]bool // path-qualified child names deleted once
 	excluded int
-	usedMaxKey bool
+	bigPlan    int // 0 none, 1 one rejected oversize op, 2 one limit-sized key
+	bigAt      int
+	bigSeen    bool
 }
 
 func genKeyPool(t *rapid.T, hostile bool, max int) [][]byte {
@@ -197,9 +199,11 @@ func (g *genState) genOps(t *rapid.T, cur *Node, maxN int) []KV {
 		}
 		ops = append(ops, kv)
 	}
-	if g.spec.Oversize && chance(t, "oversize", 4) {
+	if g.bigPlan == 1 && g.batchNo >= g.bigAt {
 		// an operation the library must reject, in the middle of the batch
+		g.bigPlan = 0
 		big := KV{Op: OpSet, Reject: true}
+		g.bigSeen = true
 		if g.spec.OversizeValue && chance(t, "bigval", 30) {
 			big.K = []byte("oversize-value")
 			big.V = make([]byte, 1<<28)
@@ -213,9 +217,10 @@ func (g *genState) genOps(t *rapid.T, cur *Node, maxN int) []KV {
 		}
 		ops = append(ops[:pos], append([]KV{big}, ops[pos:]...)...)
 	}
-	if g.spec.Oversize && !g.usedMaxKey && chance(t, "maxkey", 2) {
+	if g.bigPlan == 2 && g.batchNo >= g.bigAt {
 		// the largest key the library must accept
-		g.usedMaxKey = true
+		g.bigPlan = 0
+		g.bigSeen = true
 		k := bytes.Repeat([]byte{0xfe}, 1<<24-1)
 		ops = append(ops, KV{Op: OpSet, K: k, V: []byte("maxkey")})
 	}
@@ -402,6 +407,10 @@ func genHistory(t *rapid.T, spec *GenSpec) (*Program, int) {
 	}
 	g := &genState{spec: spec, model: NewNode(), deadKids: map[string]bool{}}
 	g.keys = genKeyPool(t, spec.Hostile, spec.KeyPoolMax)
+	if spec.Oversize {
+		g.bigPlan = pick(t, "bigplan", 92, 4, 4)
+		g.bigAt = rapid.IntRange(1, 4).Draw(t, "bigat")
+	}
 	maxOps := spec.MaxOps
 	if maxOps == 0 {
 		maxOps = 40
@@ -410,7 +419,19 @@ func genHistory(t *rapid.T, spec *GenSpec) (*Program, int) {
 	lower := p.Cfg.Backing != "mem"
 	nextID := 1
 	var snaps, iters []int
+	bigLeft := -1
 	for i := 0; i < nops; i++ {
+		// a limit-sized key or value makes every later step expensive: keep
+		// such programs short
+		if g.bigSeen && bigLeft < 0 {
+			bigLeft = 5
+		}
+		if bigLeft == 0 {
+			break
+		}
+		if bigLeft > 0 {
+			bigLeft--
+		}
 		wHold, wRel, wReopen, wSnap, wRead, wCloseS, wIter, wIterStep, wSSnap, wEarly := 0, 0, 0, 0, 0, 0, 0, 0, 0, 0
 		if spec.Holds && lower {
 			wHold, wRel = 7, 9
